@@ -518,6 +518,16 @@ pub fn run(run: &Run) {
     let mut mn = sc("mainnet-across-830000", NetID::Mainnet, 0, base.clone(), if thorough { 6 } else { 5 });
     mn.pre = vec![Action::Jump(829_998)];
     scs.push(mn);
+    // the same crossing with a small alphabet (one transfer per denomination and the replayable faucet), two levels deeper
+    let mut mn2 = sc("mainnet-across-830000-faucet-replays", NetID::Mainnet, 0, base.clone(), if thorough { 9 } else { 7 });
+    mn2.pre = vec![Action::Jump(829_998)];
+    mn2.cfg.per_denom = 1;
+    mn2.cfg.splits = false;
+    mn2.cfg.burns = false;
+    mn2.cfg.mints = false;
+    mn2.cfg.overpay = false;
+    mn2.cfg.seal_actions = vec![None];
+    scs.push(mn2);
     scs.extend(genesis_scenarios(["custom02-genesis-sym-feepool-stake", "custom02-genesis-erg-fees-stakes", "custom02-genesis-huge-mel-feepool"], NetID::Custom02, &pools, if thorough { 6 } else { 4 }));
     if thorough {
         scs.push(sc("mainnet-utxo", NetID::Mainnet, 0, base.clone(), 6));
